@@ -118,3 +118,58 @@ Corollary contexts_independent codec cs counters x cnt :
   (forall c, In c cs -> (c_ctx c < length counters)%nat) -> nth_error counters x = Some cnt ->
   request_ids_on x cs (run_calls codec counters cs) = draws cnt (length (filter (is_request_on x) cs)).
 Proof. apply ids_linearised. Qed.
+
+(* ===== Ids: builds that fail after the id was drawn ===== *)
+(* flags: one per call, true = the call failed (its packet is discarded); the counter moved all the same *)
+Fixpoint successful_request_ids (x : nat) (cs : list call) (fl : list bool) (mds : list meta) : list N :=
+  match cs, fl, mds with
+  | c :: r, f :: fr, md :: ms =>
+      if is_request_on x c && negb f then m_rid md :: successful_request_ids x r fr ms else successful_request_ids x r fr ms
+  | _, _, _ => []
+  end.
+
+Fixpoint sublist {A} (l1 l2 : list A) : Prop :=
+  match l1, l2 with
+  | [], _ => True
+  | _ :: _, [] => False
+  | a :: r1, b :: r2 => (a = b /\ sublist r1 r2) \/ sublist l1 r2
+  end.
+Lemma sublist_nil {A} (l : list A) : sublist [] l. Proof. destruct l; exact I. Qed.
+Lemma sublist_In {A} (l1 l2 : list A) a : sublist l1 l2 -> In a l1 -> In a l2.
+Proof.
+  revert l1. induction l2 as [|b l2 IH]; intros [|c l1] S I; try contradiction.
+  cbn in S. destruct S as [[-> S]|S].
+  - destruct I as [->|I]; [now left|right; eapply IH; eauto].
+  - right. eapply IH; eauto.
+Qed.
+Lemma sublist_NoDup {A} (l1 l2 : list A) : sublist l1 l2 -> NoDup l2 -> NoDup l1.
+Proof.
+  revert l1. induction l2 as [|b l2 IH]; intros [|c l1] S N; try constructor; try contradiction.
+  - cbn in S. inversion N as [|? ? Nb N2]; subst. destruct S as [[-> S]|S].
+    + intros I. apply Nb. eapply sublist_In; eauto.
+    + intros I. assert (N1 : NoDup (c :: l1)) by (apply IH; auto). inversion N1; auto.
+  - cbn in S. inversion N as [|? ? Nb N2]; subst. destruct S as [[-> S]|S]; [now apply IH|].
+    assert (N1 : NoDup (c :: l1)) by (apply IH; auto). inversion N1; auto.
+Qed.
+
+Lemma successful_sublist x cs : forall fl mds, sublist (successful_request_ids x cs fl mds) (request_ids_on x cs mds).
+Proof.
+  induction cs as [|c cs IH]; intros [|f fl] [|md mds]; cbn; try exact I; try apply sublist_nil.
+  destruct (is_request_on x c); cbn [andb].
+  - destruct f; cbn [negb].
+    + specialize (IH fl mds). destruct (successful_request_ids x cs fl mds); [exact I|]. right. exact IH.
+    + left. split; [reflexivity|apply IH].
+  - apply IH.
+Qed.
+
+(* whatever builds fail: the ids of the successful requests of a fresh context are a sublist of 1, 2, 3, ... in
+   issue order - pairwise distinct and strictly increasing *)
+Theorem successful_ids_sublist codec cs fl counters x :
+  (forall c, In c cs -> (c_ctx c < length counters)%nat) -> nth_error counters x = Some 0 ->
+  sublist (successful_request_ids x cs fl (run_calls codec counters cs)) (draws 0 (length (filter (is_request_on x) cs))).
+Proof. intros H Hx. rewrite <- (ids_linearised codec cs counters x 0 H Hx). apply successful_sublist. Qed.
+Theorem successful_ids_distinct codec cs fl counters x :
+  (forall c, In c cs -> (c_ctx c < length counters)%nat) -> nth_error counters x = Some 0 ->
+  N.of_nat (length (filter (is_request_on x) cs)) < 4294967296 ->
+  NoDup (successful_request_ids x cs fl (run_calls codec counters cs)).
+Proof. intros H Hx B. eapply sublist_NoDup; [apply successful_ids_sublist; eauto|apply draws_distinct; exact B]. Qed.
